@@ -1,5 +1,6 @@
 import Dcg.Driver.Proto
 import Dcg.Model.Version
+import Dcg.Gen.HeaderFlow
 namespace Dcg.Driver.Version
 open Dcg.Driver Dcg.Model.Version Dcg.Gen.Versions Dcg.Model.KwFlow Dcg.Gen.KwSites
 
@@ -60,6 +61,16 @@ def handlers : List (String × Handler) := [
         s!"{if writesClassLevel kd (f != 0) t then 1 else 0} {if fieldLevelPossible kd then 1 else 0}"
       | _, _, _ => "err args"
     | _ => "err args"),
+  /- version.header <header items: 0 doc | 1 future | 2 code>… → <effective 0|1> <misplaced 0|1> | unmodelled :
+     the module written by the translated print calls of generate() for this header in front of a body `future, code` -/
+  ("version.header", fun args =>
+    match args.mapM SX.nat? with
+    | some ns =>
+      let h := ns.map (fun n => if n == 0 then Dcg.Model.Header.Item.doc else if n == 1 then .future else .code)
+      match Dcg.Model.Header.emit (Dcg.Gen.HeaderFlow.prints.map (·.2)) h [.future, .code] with
+      | some out => s!"{if Dcg.Model.Header.effective out then 1 else 0} {if Dcg.Model.Header.misplaced out then 1 else 0}"
+      | none => "unmodelled"
+    | none => "err args"),
   /- version.kwsites → <number of sites> <number of text sites> <number of field-key sites> -/
   ("version.kwsites", fun
     | [] => s!"{sites.length} {(sites.filter isText).length} {(sites.filter (fun s => s.kind == .fieldKey)).length}"
